@@ -143,6 +143,21 @@ def check_function(res, prop, name, fn, args, kwargs=None, array_args=None, rtol
                 vargs[i] = v
             run_variant("all:int64", vargs)
 
+    # the numbers do not depend on the logging configuration: the same call with PyDRex's default logger level and a DEBUG-level
+    # handler attached the documented way (pydrex.io.logfile_enable)
+    try:
+        from . import solver as _solver
+
+        with _solver.debug_logging():
+            out = fn(*copy.deepcopy(args), **kwargs)
+        res.evaluations += 1
+        res.count(f"apirobust:{name}:debug_logging_active")
+        ok, why = same(base, out, rtol, atol)
+        if not ok:
+            res.violation(f"{prop}:api:{name}:debug_logging:differs", f"{name}: the same call with a DEBUG-level log handler attached gives another result: {why}", rep)
+    except Exception as e:  # noqa: BLE001
+        res.violation(f"{prop}:api:{name}:debug_logging:raises:{type(e).__name__}", f"{name} raised {type(e).__name__} ({str(e)[:120]}) with a DEBUG-level log handler attached", rep)
+
     if mutation:
         # the caller's arrays are left as they were
         margs = copy.deepcopy(args)
